@@ -20,7 +20,7 @@ From H3V Require Import Spec.C06Liveness Proofs.C06LivenessProofs.
 From H3V Require Import Spec.RFC9000 Model.Varint Proofs.VarintProofs.
 From H3V Require Import Spec.RFC9297 Model.Datagram Proofs.DatagramProofs Proofs.NoPanicCodecs.
 From H3V Require Import Model.PrefixInt Proofs.PrefixIntProofs.
-From H3V Require Import Model.Huffman Model.PrefixString Proofs.HuffmanDecodeProofs.
+From H3V Require Import Model.Huffman Model.PrefixString Proofs.HuffmanDecodeProofs Proofs.PrefixStringProofs.
 From H3V Require Import Model.QpackStateless Proofs.QpackStatelessProofs.
 From H3V Require Import Model.Settings Proofs.SettingsProofs.
 From H3V Require Import Model.Headers Proofs.HeadersProofs.
@@ -80,11 +80,12 @@ Proof. exact pi_decode_no_panic. Qed.
 Theorem C06_no_panic_huffman : forall input, wf_bytes input -> fits_u32 input -> is_panic (hpack_decode input) = false.
 Proof. exact hpack_decode_no_panic. Qed.
 
-(* string literals (prefix_string/mod.rs decode: length prefix, copy_to_bytes bound, Huffman or raw), for the
-   sizes h3 passes (8 and 4) and every other size in 2..9 *)
+(* string literals (prefix_string/mod.rs decode: length prefix, copy_to_bytes bound, the F18 size guard, Huffman or
+   raw), for the sizes h3 passes (8 and 4) and every other size in 2..8; no size premise: the guard in front of the
+   Huffman decoder discharges fits_u32 (proved by C15) *)
 Theorem C06_no_panic_prefix_string :
-  forall size bs, 2 <= size <= 9 -> wf_bytes bs -> is_panic (ps_decode size bs) = false.
-Proof. exact ps_decode_no_panic_c06. Qed.
+  forall size bs, 2 <= size <= 8 -> wf_bytes bs -> is_panic (ps_decode size bs) = false.
+Proof. exact ps_decode_no_panic. Qed.
 
 (* a whole encoded field section (qpack/decoder.rs decode_stateless over block.rs, prefix_int, prefix_string,
    static_.rs), with or without a field-section size limit: never Panic, and the model's fuel is never exhausted
